@@ -2,7 +2,10 @@ package pipe
 
 import (
 	"context"
+
 	"fmt"
+	"github.com/conduitio/conduit-commons/database/badger"
+	"github.com/rs/zerolog"
 	"os"
 	"strconv"
 	"strings"
@@ -103,6 +106,24 @@ func Run(sc *Scenario, hooks *Hooks) *Outcome {
 			MaxRetries:       sc.RecMaxRetries,
 			MaxRetriesWindow: time.Duration(sc.RecWindowUs) * time.Microsecond,
 		},
+	}
+	if sc.Store == "badger" {
+		dir, err := os.MkdirTemp("", "vf-badger-")
+		if err != nil {
+			out.Inconclusive = "badger dir: " + err.Error()
+			return out
+		}
+		bdb, err := badger.New(zerolog.Nop(), dir)
+		if err != nil {
+			os.RemoveAll(dir)
+			out.Inconclusive = "badger: " + err.Error()
+			return out
+		}
+		cfg.DB = bdb
+		defer func() {
+			_ = bdb.Close()
+			os.RemoveAll(dir)
+		}()
 	}
 	r, err := rig.New(cfg)
 	if err != nil {
